@@ -7,7 +7,7 @@ print('|---|---|---|---|---|---|')
 for mp in sorted(glob.glob(os.path.join(VERIF, 'seeded', '*', 'meta.json'))):
     m = json.load(open(mp))
     runs = m.get('check_runs', [])
-    first = ('caught' if runs[0]['caught'] else 'missed (exit %d)' % runs[0]['exit_code']) if runs else m.get('first_run', '?')
+    first = m.get('first_run') or (('caught' if runs[0]['caught'] else 'missed (exit %d)' % runs[0]['exit_code']) if runs else '?')
     last = ('**caught**' if runs[-1]['caught'] else 'missed (exit %d)' % runs[-1]['exit_code']) if runs else ('**caught**' if m.get('caught') else 'missed')
     by = set()
     for r in runs[::-1]:
@@ -19,6 +19,6 @@ for mp in sorted(glob.glob(os.path.join(VERIF, 'seeded', '*', 'meta.json'))):
             break
     if not by and m.get('caught_by'):
         by = {m['caught_by']}
-    what = (m.get('needs_to_manifest') or '').replace('|', '\\|').replace('\n', ' ')[:260]
+    what = (m.get('needs_to_manifest') or '').replace('|', '\\|').replace('\n', ' ')[:210]
     print('| %s | %s | %s | %s | %s | %s |' % (m.get('id', os.path.basename(os.path.dirname(mp))), m.get('property', ''), what, first, last,
                                               ', '.join('`%s`' % b for b in sorted(by)[:4])))
